@@ -191,8 +191,14 @@ def explore(rep, part, scenarios, bound, bases, oracle, budget_s=None, split=Tru
         for pre in st['children'] or ():
             items.append({**root, 'prefix': pre, 'root': False, 'split': False})
 
-    for st in common.pmap(run_subtree, items, chunksize=max(1, min(16, len(items) // (common.nworkers() * 8) or 1))):
+    failfast = bool(os.environ.get('VERIF_FAILFAST'))      # detection campaign only: stop at the first violation found
+
+    for st in common.pmap(run_subtree, [] if failfast and viols else items, chunksize=max(1, min(16, len(items) // (common.nworkers() * 8) or 1))):
         fold(st)
+
+        if failfast and viols:
+            common.close_pool()
+            break
 
     for sig, v in sorted(viols.items()):
         rep.violation(sig, v['what'], {'kind': 'e1', 'scn': v['scn'], 'base': v['base'], 'choices': v['choices'],
